@@ -547,7 +547,7 @@ func (sc *scenario) render() string {
 }
 
 func TestGenerated(t *testing.T) {
-	rt.Check(t, 4000, 400000, func(t *rapid.T) {
+	rt.Check(t, 4000, 2000000, func(t *rapid.T) {
 		sc := genScenario(t)
 		if msg := runScenario(t, sc); msg != "" {
 			t.Fatalf("%s\nscenario: %s", msg, sc.render())
